@@ -670,6 +670,10 @@ class TorchBackendProvider(BackendProvider):
 
     def power(self, a, b):
         """Compute a^b, handling gradient tracking for torch tensors."""
+        if not isinstance(a, torch.Tensor) and isinstance(b, torch.Tensor) and b.requires_grad:
+            # a gradient-tracking exponent under a plain base: stay in torch so that
+            # d(a^b)/db = a^b * ln(a) is recorded (numpy.power would cut the graph)
+            return torch.pow(torch.as_tensor(a, dtype=b.dtype, device=b.device), b)
         if isinstance(a, torch.Tensor):
             if isinstance(b, numpy.ndarray):
                 # mixed operands (numeric differentiation hands numpy points to a torch expression)
@@ -683,10 +687,6 @@ class TorchBackendProvider(BackendProvider):
             if isinstance(b_val, (int, numpy.integer)) and b_val < 0:
                 a = a.float()
             return a.pow(b)
-        if isinstance(b, torch.Tensor) and b.requires_grad:
-            # a gradient-tracking exponent under a plain base: stay in torch so that
-            # d(a^b)/db = a^b * ln(a) is recorded (numpy.power would cut the graph)
-            return torch.pow(torch.as_tensor(a, dtype=b.dtype, device=b.device), b)
         # For numpy arrays or scalars
         a_val = float(a) if isinstance(a, (int, numpy.integer)) else a
         b_val = b.item() if isinstance(b, torch.Tensor) and b.ndim == 0 else (b.cpu().numpy() if isinstance(b, torch.Tensor) else b)
